@@ -10,7 +10,7 @@ from ..mutants import Mut
 from ..rules import accum, loopfresh
 from ..rules.defuse import DefUse
 from ..rules.exc import ExcEngine
-from ..rules.util import callee_name, cfg_of, nodes_where
+from ..rules.util import callee_name, cfg_of, nodes_where, node_exprs
 from . import c17
 
 EXPLANATION = (
@@ -25,6 +25,7 @@ EXPLANATION = (
     " Added after seed round 3: _last_row's back-step is the width of the text written last (calc_width of the Z text); `self._resized` is tested again between the walk over canvas.content() and the write / screen_buf store; (9) ACCUM - the row counter of draw_screen advances for skipped rows too; (10) KIND - in the HTML back-end everything added to / compared with the cursor column is a calc_width() result, never a character count."
     " Round 4: the 'same canvas object as last time' shortcut of draw_screen reads screen_buf (which clear(), resize and stop reset); (11) LOOPFRESH on per-row state of the two draw_screen implementations."
     " Round-4 triage: (12) the erase-to-end-of-line shortcut is disabled for every style flag _attrspec_to_escape() emits that is drawn on blank cells (all but bold / italics / blink). Round 5: (13) every value given to the rendition model of draw_screen is sent on every path to its next use; (14) _last_row reads row[-2] only under a test of len(row); (15) every draw_screen reads all three components of a run (the HTML back-end used to drop the charset flag); (3, extended) `_resized` is tested again between the write loop and the screen_buf record."
+    ' Round 6: (12) the erase-shortcut helper resolves an AttrSpec object to itself; (16) TAINT: every piece of cell text decoded for output went through the control-character filter - also the cell written with the insert trick (fix 8553a8b); (17) a draw that ends with the IBM PC font on switches it off.'
 )
 NOT_DECIDED = "The effect of the escape stream on a terminal across frame histories, the erase-to-end-of-line and insert-mode equivalences, no-scroll - these need a terminal interpreter, i.e. execution."
 ASSUMPTIONS = []
@@ -561,6 +562,68 @@ def rule_cell_components(ctx: Ctx) -> RuleResult:
     return rr
 
 
+def rule_cell_text_filtered(ctx: Ctx) -> RuleResult:
+    """Canvas text is data, the terminal takes bytes below 0x20 as commands: draw_screen() replaces them
+    (`.translate(UNPRINTABLE_TRANS_TABLE)`) unless the cell uses the IBM PC character set, where they are glyphs.  The
+    text of a cell reaches the output at two places - the run loop and the insert-mode block that writes the cell
+    left of the bottom-right corner - and both have to filter: every `.decode(encoding ..)` of cell text whose result
+    is sent is preceded, on the non-"U" side, by the translate of that same variable (before fix 8553a8b the inserted
+    cell was sent raw: an ESC in the text of the last row was executed by the terminal)."""
+    p = ctx.p
+    rr = RuleResult("TAINT", "C04.16", "every piece of cell text draw_screen decodes for output went through UNPRINTABLE_TRANS_TABLE (unless its charset is 'U')", floor=2)
+    for q in ("urwid.display._raw_display_base.Screen.draw_screen", "urwid.display.curses.Screen.draw_screen"):
+        if q not in p.functions:
+            continue
+        fi = p.functions[q]
+        cfg = cfg_of(fi)
+        decs = [c for c in fi.own_nodes() if isinstance(c, ast.Call) and isinstance(c.func, ast.Attribute) and c.func.attr == "decode" and isinstance(c.func.value, ast.Name) and c.args and isinstance(c.args[0], ast.Name) and c.args[0].id == "encoding"]
+        for c in decs:
+            nm = c.func.value.id
+            if nm == "line":
+                continue  # the final write loop: already-built output strings
+            cn = next((x for x in cfg.nodes if any(y is c for e in node_exprs(x) for y in ast.walk(e))), None)
+            trans = [x for x in cfg.nodes if isinstance(x.ast, ast.Assign) and any(isinstance(t, ast.Name) and t.id == nm for t in x.ast.targets) and isinstance(x.ast.value, ast.Call) and isinstance(x.ast.value.func, ast.Attribute) and x.ast.value.func.attr == "translate" and isinstance(x.ast.value.func.value, ast.Name) and x.ast.value.func.value.id == nm and "UNPRINTABLE" in ast.unparse(x.ast.value)]
+            # the translate is skipped only under a test that mentions "U"
+            ok = False
+            if cn is not None and trans:
+                r = cfg.reachable([cfg.entry], avoid=trans, include_start=True)
+                if cn not in r:
+                    ok = True
+                else:
+                    # reachable without translate: every such path must take the `== "U"` side of a charset test
+                    tests = [t for t in cfg.nodes if t.kind == "test" and any(isinstance(k, ast.Constant) and k.value == "U" for k in ast.walk(t.ast)) and any(tr not in ExcEngine._reach_without_edge(cfg, t, lab) for tr in trans for lab in ("T", "F"))]
+                    ok = bool(tests)
+            rr.inst(f"{short(fi)}: {norm(c, 40)}", True, {"decode": norm(c, 50), "filtered": ok})
+            if not ok:
+                rr.add(finding("TAINT", fi, c, f"`{norm(c, 50)}` turns the text of a canvas cell into output without `{nm}.translate(UNPRINTABLE_TRANS_TABLE)` before it: control characters in the text (ESC, CSI introducers, BEL ...) are executed by the terminal instead of being shown as '?' - the run loop filters them, this place does not", construct=f"cell text {nm} decoded without the control-character filter"))
+    return rr
+
+
+def rule_font_off_at_end(ctx: Ctx) -> RuleResult:
+    """The IBM PC character set is switched on with SGR 11 and has to be switched off with SGR 10 (SGR 0 does not do
+    it on the Linux console).  Every draw starts from 'charset unknown' (last_charset_flag = None) and then only sends
+    SI / SO for a normal run - so a draw must not *end* with the PC font on: after the row loop a test of
+    last_charset_flag == "U" appends IBMPC_OFF on the way to the output being written."""
+    p = ctx.p
+    rr = RuleResult("PAIR", "C04.17", "a draw that ends with the IBM PC font on switches it off (IBMPC_OFF under last_charset_flag == 'U' after the row loop)", floor=1)
+    fi = p.func("urwid.display._raw_display_base.Screen.draw_screen")
+    cfg = cfg_of(fi)
+    ons = nodes_where(cfg, lambda c: isinstance(c, ast.Attribute) and c.attr == "IBMPC_ON")
+    if not ons:
+        raise AnalysisError("draw_screen: IBMPC_ON is no longer emitted")
+    loops = [h for h in cfg.nodes if h.kind == "for" and "content" in ast.unparse(h.ast.iter)]
+    if not loops:
+        raise AnalysisError("draw_screen: the loop over canvas.content() was not found")
+    h = loops[0]
+    after = cfg.reachable_from_edges([(h, "F")])
+    offs = [n for n in after if n.ast is not None and any(isinstance(x, ast.Attribute) and x.attr == "IBMPC_OFF" for x in ast.walk(n.ast)) and not any(y is n.ast or y is getattr(n, "stmt", None) for y in ast.walk(h.ast))]
+    guarded = [n for n in offs if any(t.kind == "test" and any(isinstance(k, ast.Constant) and k.value == "U" for k in ast.walk(t.ast)) and n not in ExcEngine._reach_without_edge(cfg, t, "T") for t in cfg.nodes)]
+    rr.inst("font off after the row loop", True, {"IBMPC_OFF_after_loop": [norm(n.stmt, 50) for n in guarded]})
+    if not guarded:
+        rr.add(finding("PAIR", fi, h.ast, "after the row loop nothing switches the IBM PC font off when the last run drawn used it: the next draw starts with the charset 'unknown', sends only SI for its first normal run and the text appears in the PC font (SGR 11 still on)", construct="draw can end with the IBM PC font on"))
+    return rr
+
+
 def run(ctx: Ctx):
     r6 = c17.rule_palette_cache(ctx, "C04.6")
     r7 = c17.rule_palette_total(ctx, "C04.7")
@@ -568,12 +631,14 @@ def run(ctx: Ctx):
     r8.clause = "C04.8"
     r9 = accum.run_accum(ctx.p, "C04.9", "C04", floor=1)
     r11 = loopfresh.run_loopfresh(ctx.p, "C04.11", "C04", floor=3)
-    return [rule_triple(ctx), rule_last_row_triple(ctx), rule_cursor(ctx), rule_repaint(ctx), rule_charset_first(ctx), rule_html(ctx), rule_html_cursor_columns(ctx), r6, r7, r8, r9, r11, rule_erase_shortcut(ctx), rule_rendition_model(ctx), rule_last_row_neighbour(ctx), rule_cell_components(ctx)]
+    return [rule_triple(ctx), rule_last_row_triple(ctx), rule_cursor(ctx), rule_repaint(ctx), rule_charset_first(ctx), rule_html(ctx), rule_html_cursor_columns(ctx), r6, r7, r8, r9, r11, rule_erase_shortcut(ctx), rule_rendition_model(ctx), rule_last_row_neighbour(ctx), rule_cell_components(ctx), rule_cell_text_filtered(ctx), rule_font_off_at_end(ctx)]
 
 
 _RW = "urwid/display/_raw_display_base.py"
 _HT = "urwid/display/html_fragment.py"
 MUTANTS = [
+    Mut("insert-cell-unfiltered", _RW, "urwid.display._raw_display_base.Screen.draw_screen", "                    if insertcs != \"U\":\n                        inserttext = inserttext.translate(UNPRINTABLE_TRANS_TABLE)\n", "", "TAINT|display._raw_display_base.Screen.draw_screen|cell text inserttext decoded without the control-character filter"),
+    Mut("draw-ends-with-pc-font-on", _RW, "urwid.display._raw_display_base.Screen.draw_screen", "        if last_charset_flag == \"U\":\n            # the next draw starts from the normal font: SGR 0 does not switch the IBM PC mapping off everywhere\n            output.append(escape.IBMPC_OFF)\n", "", "PAIR|display._raw_display_base.Screen.draw_screen|draw can end with the IBM PC font on"),
     Mut("el-shortcut-attrspec-object-taken-for-default", "urwid/display/_raw_display_base.py", "urwid.display._raw_display_base.Screen.draw_screen", "            a = self._pal_attrspec.get(a, a)\n", "            a = self._pal_attrspec.get(a, self._pal_attrspec[None])\n", "TAB|display._raw_display_base.Screen.draw_screen.<locals>.using_standout_or_underline|using_standout_or_underline: AttrSpec object not resolved to itself"),
     Mut("html-ignores-charset-flag", _HT, "HtmlGenerator.draw_screen", "            for a, cs, run in row:\n                t_run = run.decode(get_encoding())\n                if cs == \"0\":\n                    t_run = t_run.translate(_dec_special_table)\n", "            for a, _cs, run in row:\n                t_run = run.decode(get_encoding())\n", "TRIPLE|display.html_fragment.HtmlGenerator.draw_screen"),
     Mut("record-overwrites-resize-reset", _RW, "urwid.display._raw_display_base.Screen.draw_screen", "        if self._resized:\n            # the size changed while writing: what the terminal shows now is unknown, repaint completely next time\n            return\n\n        self.screen_buf = sb", "        self.screen_buf = sb", "INV|display._raw_display_base.Screen.draw_screen|no _resized test between the write and the screen_buf record"),
